@@ -161,7 +161,7 @@ var repChoices = []int{1, 8, 64, 64, 512, 512}
 func genStep(t *rapid.T) Step {
 	k := rapid.SampledFrom([]string{
 		"read", "read", "write", "write", "write", "writeflush", "writemulti", "mode", "mode", "modtime",
-		"setmode", "setmtime", "size", "size", "getnode", "type", "list", "flush", "flushpath", "flushdir", "mv", "mvdir",
+		"setmode", "setmtime", "size", "size", "getnode", "type", "list", "flush", "flushpath", "flushpath", "flushdir", "mv", "mv", "mvdir",
 	}).Draw(t, "kind")
 	s := Step{Kind: k}
 	if isFileOp(k) {
@@ -169,6 +169,9 @@ func genStep(t *rapid.T) Step {
 	}
 	if isAccessor(k) {
 		s.Rep = rapid.SampledFrom([]int{1, 1, 8, 64}).Draw(t, "rep")
+		if k == "list" && s.Rep > 4 {
+			s.Rep = 4 // every listing of "/" passes two DAGService.Add scheduling points
+		}
 	}
 	switch k {
 	case "write", "writeflush":
@@ -995,7 +998,7 @@ func nonTrivial(c Case) bool {
 var spec = kit.Spec[Case]{
 	Prop: "C20", Name: "conc",
 	Rule:  "2-4 real goroutines in a child process (GOMAXPROCS 2|16), each looping 60-500 times over a generated script (<=6 steps) of read / slot write (+-Sync, +-descriptor Flush, or 2-3 WriteAt+Flush rounds and a WriteAt+Close on ONE descriptor) / Mode / ModTime / GetNode / Type / SetMode / SetModTime / Size / List / Root.Flush / FlushPath(file|dir) / Mv(file|dir) on 3 shared files in 2 directories, read-side accessors optionally repeated 8-512 times back to back on the looked-up object; one case in four has the single-owner shape (one worker owns a file and acknowledges every write by a propagating Close/Flush, the others flush the directories above it); one case in four has the hot-readers shape (1-2 workers loop 2-6 of the read-side accessors Size/Mode/ModTime/GetNode/Type/List-of-parent of one file, mostly for as long as the others run, while 1-2 workers run operations that take that file's node lock for writing: descriptor Close/Flush of readers and writers, SetMode, SetModTime, FlushPath); three cases in four run with generated scheduling points at the DAGService.Add/Get boundary (every k-th call: hand-off until other workers completed 1-2 steps, or sleep/yield), which widen the lock-free windows of every update that bubbles up the tree; liveness by watchdog + SIGQUIT dump signature, safety by per-worker slots with growing sequence numbers in each file (a write whose Close/Flush returned before a read/flush began must be visible in what that read/flush returns, and in the final flushed root); non-trivial = two workers operate on the same file and one of them writes content or metadata, or one worker writes a file with propagating Close/Flush while another flushes a directory above it",
-	Quick: 30, Thorough: 75,
+	Quick: 40, Thorough: 75,
 	Gen: gen, Run: run,
 }
 
